@@ -166,7 +166,9 @@ def invalidate_attrs(obj: Any, attr: str, invalidation_map: Dict[str, Set[str]] 
         try:
             delattr(obj, invalidatee)
         except AttributeError:
-            pass
+            # Nothing is stored for this attribute, but values derived from it
+            # may be: they depend (transitively) on `attr` all the same.
+            invalidate_attrs(obj, invalidatee, invalidation_map)
 
 
 def mutate_value(
